@@ -146,7 +146,7 @@ def execute(ctx, env, case, resp=None):
         return
     # protocol sanity rides along (C05's automata)
     if iface == "wsgi":
-        probs = automata.check_wsgi(r.events)
+        probs = automata.check_wsgi(r.events, once=True)
     else:
         probs = automata.check_asgi_http(r.sent, zerocopy_offered=iface == "asgi-zc")
     for w, d in probs:
